@@ -167,6 +167,53 @@ Fixpoint write_heap (fuel : nat) (h : heap) {struct fuel} : list nat -> hval -> 
   end.
 End Printer.
 
+(* The tree a heap value unfolds to when no reference is reached again while it
+   is being unfolded (sharing is fine, a cycle gives None).  Mirrors write_heap. *)
+Fixpoint unfold (fuel : nat) (h : heap) {struct fuel} : list nat -> hval -> option value :=
+  fix uv (path : list nat) (x : hval) {struct x} : option value :=
+  match x with
+  | HLeaf v => Some v
+  | HTuple l =>
+    option_map VTuple
+      ((fix go (l : list hval) : option (list value) :=
+          match l with
+          | [] => Some []
+          | y :: t => match uv path y, go t with Some a, Some b => Some (a :: b) | _, _ => None end
+          end) l)
+  | HRef loc =>
+    match nth_error h loc with
+    | None => None
+    | Some (OList l) =>
+      if existsb (Nat.eqb loc) path then None
+      else match fuel with
+      | O => None
+      | S f =>
+        option_map VList
+          ((fix go (l : list hval) : option (list value) :=
+              match l with
+              | [] => Some []
+              | y :: t => match unfold f h (path ++ [loc]) y, go t with Some a, Some b => Some (a :: b) | _, _ => None end
+              end) l)
+      end
+    | Some (ODict l) =>
+      if existsb (Nat.eqb loc) path then None
+      else match fuel with
+      | O => None
+      | S f =>
+        option_map VDict
+          ((fix go (l : list (hval * hval)) : option (list (value * value)) :=
+              match l with
+              | [] => Some []
+              | (k, y) :: t =>
+                match unfold f h path k, unfold f h (path ++ [loc]) y, go t with
+                | Some a, Some b, Some c => Some ((a, b) :: c)
+                | _, _, _ => None
+                end
+              end) l)
+      end
+    end
+  end.
+
 (* ---- reading a printed value back ------------------------------------------- *)
 Inductive rres := ROk (v : value) (rest : list N) | RErr | RFuel.
 Inductive ires := IOk (l : list value) (comma : bool) (rest : list N) | IErr | IFuel.
